@@ -721,7 +721,6 @@ func (d *dealer) syncCall(caller *wamp.Session, msg *wamp.Call) {
 			session: caller.ID,
 			request: msg.Request,
 		}
-		d.calls[reqID] = caller
 		invk = &invocation{
 			callID:     reqID,
 			callee:     callee,
@@ -837,6 +836,9 @@ func (d *dealer) syncCall(caller *wamp.Session, msg *wamp.Call) {
 			session: callee.ID,
 			request: invocationID,
 		}
+		// Record the pending call only now, so that a call refused above
+		// leaves nothing behind.
+		d.calls[reqID] = caller
 		d.invocations[invkReqID] = invk
 		d.invocationByCall[reqID] = invkReqID
 	} else {
